@@ -39,6 +39,9 @@ func showcase() []Blk {
 }
 
 func fixedCases() []Case {
+	if os.Getenv("C19_NO_FIXED") != "" { // sensitivity measurements of the generated search alone
+		return nil
+	}
 	all := Opts{GFM: true, Tables: true, TaskList: true, Math: true, Footnotes: true, TOC: true, TOCMax: 3}
 	out := []Case{
 		{Kind: "ast", Cls: "clean", Entry: "bytes", Opts: all, Doc: showcase()},
@@ -79,6 +82,21 @@ func selfTest() error {
 	}
 	if len(r1) < 20 {
 		return fmt.Errorf("showcase reading has only %d blocks", len(r1))
+	}
+	// the placement used to attribute M1 failures
+	for _, tc := range []struct {
+		units []string
+		s     string
+		want  []int
+	}{
+		{[]string{"&", "alpha"}, "&amp;alpha", []int{0, 5}},
+		{[]string{"BetaBetaalphagammaBeta", "alphaalphaBeta", "alphaalpha"}, "alphaalphaBeta", []int{-1, 0, -1}},
+		{[]string{"ab", "", "ab", "c"}, "abc", []int{0, -1, -1, 2}},
+		{[]string{"a*b", "cd"}, "a\\*bcd", []int{-1, 4}},
+	} {
+		if got := placeUnits(tc.units, tc.s); fmt.Sprint(got) != fmt.Sprint(tc.want) {
+			return fmt.Errorf("placeUnits(%q,%q) = %v, want %v", tc.units, tc.s, got, tc.want)
+		}
 	}
 	// GFM off: the same text reads differently (no tables, no strike-through) -> must be seen as a disagreement
 	html, _ = goldmarkHTML([]byte(c.Markdown()), Opts{})
